@@ -454,7 +454,14 @@ theorem rw_obs (s s' : St) (e : Ev) (o : Obs) (b : Book) (hk : RK s b) (hw : RW 
   | quiesce bb B =>
     simp [Ev.obs] at ho; subst ho
     simp only [step] at hs; split at hs <;> simp at hs; subst hs
-    exact hw
+    refine rw_ext s s b _ hw hk.len (sameW_same _ _ rfl rfl) ⟨rfl, ?_, ?_⟩
+    · intro y cy hy
+      obtain ⟨_, _, _, h4, h5, h6⟩ := resetOne_core b B y cy
+      exact ⟨resetOne b B y cy, by simp [Book.update, resetSeen_get, hy], h6, h5, fun hr => by rw [h4]; exact hr⟩
+    · intro y cy' hy hge
+      have := lt_of_getElem? hy
+      simp [Book.update, resetSeen_len] at this
+      omega
   | invSet t p v e' =>
     simp [Ev.obs] at ho; subst ho
     simp only [step] at hs; split at hs <;> simp at hs; subst hs
